@@ -14,10 +14,11 @@ import (
 	"encoding/hex"
 	"encoding/json"
 	"fmt"
+	"io"
 	"math"
 	"math/rand"
 	"os"
-	"sort"
+	"reflect"
 	"strings"
 	"sync"
 
@@ -90,9 +91,57 @@ func geomDigest(g geom.T) string {
 	return dig(kindOf(g), int(g.Layout()), g.SRID(), g.FlatCoords(), fmt.Sprint(g.Ends()), fmt.Sprint(g.Endss()))
 }
 
+// deepWalk writes every field of a value - exported or not, through pointers, slices and interfaces - into h:
+// the bitwise snapshot of an argument (a query that caches something in an unexported field changes it).
+func deepWalk(h io.Writer, v reflect.Value, depth int) {
+	if depth > 12 {
+		return
+	}
+	switch v.Kind() {
+	case reflect.Ptr, reflect.Interface:
+		if v.IsNil() {
+			fmt.Fprint(h, "nil;")
+			return
+		}
+		deepWalk(h, v.Elem(), depth+1)
+	case reflect.Struct:
+		for i := 0; i < v.NumField(); i++ {
+			fmt.Fprintf(h, "%s:", v.Type().Field(i).Name)
+			deepWalk(h, v.Field(i), depth+1)
+		}
+	case reflect.Slice, reflect.Array:
+		if v.Kind() == reflect.Slice && v.IsNil() {
+			fmt.Fprint(h, "nilslice;")
+			return
+		}
+		fmt.Fprintf(h, "[%d]", v.Len())
+		for i := 0; i < v.Len(); i++ {
+			deepWalk(h, v.Index(i), depth+1)
+		}
+	case reflect.Float64, reflect.Float32:
+		fmt.Fprintf(h, "%x;", math.Float64bits(v.Float()))
+	case reflect.Int, reflect.Int8, reflect.Int16, reflect.Int32, reflect.Int64:
+		fmt.Fprintf(h, "%d;", v.Int())
+	case reflect.Uint, reflect.Uint8, reflect.Uint16, reflect.Uint32, reflect.Uint64:
+		fmt.Fprintf(h, "%d;", v.Uint())
+	case reflect.Bool:
+		fmt.Fprintf(h, "%t;", v.Bool())
+	case reflect.String:
+		fmt.Fprintf(h, "%q;", v.String())
+	default:
+		fmt.Fprintf(h, "<%s>;", v.Kind())
+	}
+}
+
+func deepDigest(x any) string {
+	h := sha1.New()
+	deepWalk(h, reflect.ValueOf(x), 0)
+	return hex.EncodeToString(h.Sum(nil))[:16]
+}
+
 // snapshot: everything a call could have modified in its argument, plus the exported package-level variables
 func (a *callArg) snapshot() string {
-	parts := []any{geomDigest(a.g), a.wkbB, a.ewkbB, a.gjB, a.wktS, a.hexS, a.igcB, int(geojson.DefaultLayout), fmt.Sprint(wkbcommon.MaxGeometryElements)}
+	parts := []any{geomDigest(a.g), deepDigest(a.g), a.wkbB, a.ewkbB, a.gjB, a.wktS, a.hexS, a.igcB, int(geojson.DefaultLayout), fmt.Sprint(wkbcommon.MaxGeometryElements)}
 	for _, p := range a.pts {
 		parts = append(parts, p)
 	}
@@ -313,17 +362,46 @@ func (hullCmp) IsLess(x, y geom.Coord) bool {
 	return x[0] < y[0] || (x[0] == y[0] && x[1] < y[1])
 }
 
-func callArgs(r *rand.Rand) []*callArg {
-	var gs []struct {
-		id string
-		g  geom.T
+type namedGeom struct {
+	id string
+	g  geom.T
+}
+
+// callArgs: the shared arguments. The encodings handed to the decoders are produced from a SECOND, equal set of
+// geometries, so that the shared geometries have not been touched by any library call before their first snapshot.
+func callArgs(seed int64) []*callArg {
+	gs := buildGeoms(rand.New(rand.NewSource(seed)))
+	twins := buildGeoms(rand.New(rand.NewSource(seed)))
+	var out []*callArg
+	for i, x := range gs {
+		t := twins[i].g
+		a := &callArg{id: x.id, g: x.g}
+		a.wkbB, _ = wkb.Marshal(t, wkb.NDR, wkbcommon.WKBOptionEmptyPointHandling(wkbcommon.EmptyPointHandlingNaN))
+		a.ewkbB, _ = ewkb.Marshal(t, ewkb.XDR)
+		a.gjB, _ = geojson.Marshal(t)
+		a.wktS, _ = wkt.Marshal(t)
+		a.hexS, _ = wkbhex.Encode(t, wkb.XDR, wkbcommon.WKBOptionEmptyPointHandling(wkbcommon.EmptyPointHandlingNaN))
+		a.igcB = []byte("AXXX\nHFDTE010100\nI013636TDS\nB1200004730000N00830000EA00500006005\nB1200014730001N00830002EA00501006015\n")
+		var fc []float64
+		stride := 2
+		if _, isGC := t.(*geom.GeometryCollection); !isGC && len(t.FlatCoords()) >= 4*t.Stride() && t.Stride() >= 2 {
+			fc, stride = t.FlatCoords(), t.Stride()
+		} else {
+			fc = []float64{0, 0, 4, 4, 0, 4, 4, 0}
+		}
+		n := len(fc) / stride
+		for k := 0; k < 4; k++ {
+			j := (k * (n / 4)) % n
+			a.pts = append(a.pts, append(geom.Coord{}, fc[j*stride:(j+1)*stride]...))
+		}
+		out = append(out, a)
 	}
-	add := func(id string, g geom.T) {
-		gs = append(gs, struct {
-			id string
-			g  geom.T
-		}{id, g})
-	}
+	return out
+}
+
+func buildGeoms(r *rand.Rand) []namedGeom {
+	var gs []namedGeom
+	add := func(id string, g geom.T) { gs = append(gs, namedGeom{id, g}) }
 	rnd := func(n, stride int, grid float64) []float64 {
 		out := make([]float64, n*stride)
 		for i := range out {
@@ -365,30 +443,11 @@ func callArgs(r *rand.Rand) []*callArg {
 	gc.MustPush(geom.NewPointFlat(geom.XY, []float64{1, 2}), geom.NewLineStringFlat(geom.XY, rnd(5, 2, 30)),
 		geom.NewGeometryCollection().MustPush(geom.NewPolygonFlat(geom.XY, append([]float64{}, ring...), []int{len(ring)})))
 	add("gc-nested", gc)
-	var out []*callArg
-	for _, x := range gs {
-		a := &callArg{id: x.id, g: x.g}
-		a.wkbB, _ = wkb.Marshal(x.g, wkb.NDR, wkbcommon.WKBOptionEmptyPointHandling(wkbcommon.EmptyPointHandlingNaN))
-		a.ewkbB, _ = ewkb.Marshal(x.g, ewkb.XDR)
-		a.gjB, _ = geojson.Marshal(x.g)
-		a.wktS, _ = wkt.Marshal(x.g)
-		a.hexS, _ = wkbhex.Encode(x.g, wkb.XDR, wkbcommon.WKBOptionEmptyPointHandling(wkbcommon.EmptyPointHandlingNaN))
-		a.igcB = []byte("AXXX\nHFDTE010100\nI013636TDS\nB1200004730000N00830000EA00500006005\nB1200014730001N00830002EA00501006015\n")
-		var fc []float64
-		stride := 2
-		if f, ok := flatOfT(x.g); ok && len(f) >= 4*x.g.Stride() && x.g.Stride() >= 2 {
-			fc, stride = f, x.g.Stride()
-		} else {
-			fc = []float64{0, 0, 4, 4, 0, 4, 4, 0}
-		}
-		n := len(fc) / stride
-		for k := 0; k < 4; k++ {
-			i := (k * (n / 4)) % n
-			a.pts = append(a.pts, append(geom.Coord{}, fc[i*stride:(i+1)*stride]...))
-		}
-		out = append(out, a)
-	}
-	return out
+	gcm := geom.NewGeometryCollection()
+	gcm.MustPush(geom.NewPointFlat(geom.XYZ, []float64{1, 2, 3}), geom.NewLineStringFlat(geom.XYM, rnd(4, 3, 30)),
+		geom.NewMultiPointFlat(geom.XY, rnd(3, 2, 30)))
+	add("gc-mixed-z-m", gcm)
+	return gs
 }
 
 type callEvent struct {
@@ -415,8 +474,7 @@ func callsSpecial(in, out string) int {
 		return 64
 	}
 	must(json.Unmarshal(bytes.TrimSpace(b), &p))
-	r := rand.New(rand.NewSource(seed))
-	args := callArgs(r)
+	args := callArgs(seed)
 	ops := callOps()
 	fout, err := os.Create(out)
 	if err != nil {
@@ -457,11 +515,18 @@ func callsSpecial(in, out string) int {
 			for k := 0; k < p.Rounds; k++ {
 				o := ops[rr.Intn(len(ops))]
 				a := args[rr.Intn(len(args))]
-				if p.Control && g == 0 && k%5 == 0 {
-					// positive control of the sensor (never part of a verdict run): the HARNESS sorts a shared slice in place
+				if p.Control && g == 0 {
+					// positive control of the sensor (never part of a verdict run): the HARNESS keeps writing to a shared
+					// slice (reversing it in place, so every round really writes) while the other goroutines read it
 					if fc, ok := flatOfT(args[4].g); ok {
-						sort.Float64s(fc)
+						for i, j := 0, len(fc)-1; i < j; i, j = i+1, j-1 {
+							fc[i], fc[j] = fc[j], fc[i]
+						}
 					}
+					a = args[4]
+				}
+				if p.Control && g != 0 && k%2 == 0 {
+					a = args[4]
 				}
 				res := o.f(a)
 				evs[g] = append(evs[g], callEvent{Ev: "conc", Gor: g + 1, Seq: k + 1, Op: o.name, Arg: a.id, Res: res, Pre: "-", Post: "-"})
